@@ -77,6 +77,10 @@ def enumerate_cases(tier, shard=0, nshards=1):
     return gen(), f"all {n} histories of 1..{depth} operations from a {len(alpha)}-op alphabet over classes A, B (shared metaclass), C(A) and arguments -1, -2, 1"
 
 
+class _Abort(BaseException):
+    pass
+
+
 def family():
     from edgegraph.structure import singleton as S
 
@@ -118,8 +122,10 @@ def family():
         """__init__ refuses some arguments: a failed construction must leave nothing behind."""
 
         def __init__(self, *a, **k):
-            if a and a[0] in ("b", 2, -2):
+            if a and a[0] in ("b", 2):
                 raise ValueError("refused")
+            if a and a[0] == -2:
+                raise _Abort()          # not an Exception subclass (like KeyboardInterrupt), survived by the caller
             init(self, *a, **k)
 
     return [A, B, C, D, E, F, G], ninit, hf
@@ -217,7 +223,7 @@ def check_case(case):
             refused = c is CL[6] and a in ("b", 2, -2) and k not in model[c]
             try:
                 o = c(a, **kwargs)
-            except ValueError as e:
+            except (ValueError, _Abort) as e:
                 if refused:
                     # the class's own __init__ refused: nothing may have been registered (verify_all checks it)
                     classes.add("construction-refused-by-__init__")
